@@ -19,6 +19,11 @@ Import ListNotations.
 Local Open Scope R_scope.
 Local Open Scope string_scope.
 
+(* equal real expressions (the generators may write t.Radius + k.Tolerance in another order) *)
+Ltac rarith :=
+  cbv zeta; cbn [T o0 o1 oadd osub omul odiv oneg ofZ ROps]; unfold cst, half, two; cbn [T o0 o1 oadd osub omul odiv oneg ofZ ROps];
+  first [ lra | ring | (field; lra) ].
+
 (* ------------------------------------------------------------------ meaning of a skeleton term *)
 Section Sem.
   (* Evaluate of the profile sdf.ISOThread(radius, pitch, external) returns *)
@@ -172,18 +177,21 @@ Section Sem.
         apply iso_outlines_nest; try assumption. lra.
       - cbn [wz]. lra. }
     (* the shapes the two generators return *)
-    assert (NUT : exists body_name body_nums body_strs nh,
+    assert (NUT : exists body_name body_nums body_strs nh ri,
       N = SkDifference3D (SkCall3 body_name body_nums body_strs [])
-            (SkScrew3D (SkISOThread (Radius t + tol_n) (Pitch t) false) nh (Taper t) (Pitch t) 1%Z) /\
+            (SkScrew3D (SkISOThread ri (Pitch t) false) nh (Taper t) (Pitch t) 1%Z) /\
+      ri = Radius t + tol_n /\
       nth 1 body_nums 0 = nh /\ (body_name = "HexHead3D" \/ body_name = "KnurledHead3D")).
     { destruct (String.eqb style_n "hex"); [| destruct (String.eqb style_n "knurl"); [| discriminate]];
-        injection HN as <-; do 4 eexists; (split; [reflexivity|]); (split; [reflexivity|]); auto. }
-    destruct NUT as (bn & bnums & bstrs & nh & -> & Hnh & Hbn).
+        injection HN as <-; do 5 eexists; (split; [reflexivity|]);
+        (split; [first [reflexivity | rarith]|]); (split; [first [reflexivity | rarith]|]); auto. }
+    destruct NUT as (bn & bnums & bstrs & nh & ri & -> & -> & Hnh & Hbn).
     assert (BOLT : exists head sh third, B = SkUnion3D [head; sh; third] /\
       ~ has_screw head /\ ~ has_screw sh /\
-      (third = SkNil \/ exists cn cs tl off, third =
+      (third = SkNil \/ exists cn cs tl off re, third =
          SkTranslate3D (SkCall3 "ChamferedCylinder" cn cs
-           [SkScrew3D (SkISOThread (Radius t - tol_b) (Pitch t) true) tl (Taper t) (Pitch t) 1%Z]) (mkV3 0 0 off))).
+           [SkScrew3D (SkISOThread re (Pitch t) true) tl (Taper t) (Pitch t) 1%Z]) (mkV3 0 0 off) /\
+         re = Radius t - tol_b)).
     { assert (NS1 : forall nm nums strs, ~ has_screw (SkCall3 nm nums strs [])).
       { intros nm nums strs H. inversion H as [| | ? ? ? ? ? Hin | | |]; subst. destruct Hin. }
       assert (NS2 : forall nm nums strs d, ~ has_screw (SkTranslate3D (SkCall3 nm nums strs []) d)).
@@ -192,9 +200,10 @@ Section Sem.
         match type of HB with context [if ?c then _ else _] => destruct c end;
         injection HB as <-; do 3 eexists; (split; [reflexivity|]);
         (split; [apply NS1|]); (split; [apply NS2|]);
-        first [ left; reflexivity | right; do 4 eexists; reflexivity ]. }
+        first [ left; reflexivity
+              | right; do 5 eexists; (split; [reflexivity|]); first [reflexivity | rarith] ]. }
     destruct BOLT as (head & sh & third & -> & Hh & Hs & Hthird).
-    destruct Hthird as [-> | (cn & cs & tl & off & ->)].
+    destruct Hthird as [-> | (cn & cs & tl & off & re & -> & ->)].
     - exists [head; sh; SkNil], 0. split; [reflexivity|].
       intros a Ha Hscr. exfalso.
       destruct Ha as [<- | [<- | [<- | []]]]; [exact (Hh Hscr) | exact (Hs Hscr) | inversion Hscr].
